@@ -15,13 +15,13 @@ func init() { core.Register(c15{}) }
 func (c15) ID() string    { return "C15" }
 func (c15) Level() string { return "exploration" }
 func (c15) Rule() string {
-	return "cases = generated op sequences (puts, deletes, gets, batches with repeated puts/deletes/gets on one key, restarts, merges) per index type x I/O type in which the harness owns exactly ONE key buffer and ONE value buffer (with spare capacity) used for every DB and Batch call; after each return both buffers are filled over their full capacity with a step-dependent poison pattern; before the next call and after it the pattern must be intact (the engine never writes into caller memory); the model is fed with private copies, and the per-step Get plus the periodic full dump (ListKeys/Fold keys come straight out of the index) detect any dependence of the database on the poisoned buffers; every non-empty slice returned by DB.Get and Batch.Get is kept with a private copy and re-compared after every later operation for 50 steps and at the end. Non-trivial: case with >=1 batch that re-puts a staged key, >=20 retained slices and >=1 restart; distinct = hash of (config, op list) Every third compared Get is followed by a second Get whose RESULT the harness overwrites with garbage and a third Get that must still return the stored value (and the first result must be unchanged); values handed to the Fold callback are overwritten by the callback."
+	return "cases = generated op sequences (puts, deletes, gets, batches with repeated puts/deletes/gets on one key, restarts, merges) per index type x I/O type in which the harness owns exactly ONE key buffer and ONE value buffer (with spare capacity) used for every DB and Batch call; after each return both buffers are filled over their full capacity with a step-dependent poison pattern; before the next call and after it the pattern must be intact (the engine never writes into caller memory); the model is fed with private copies, and the per-step Get plus the periodic full dump (ListKeys/Fold keys come straight out of the index) detect any dependence of the database on the poisoned buffers; every non-empty slice returned by DB.Get and Batch.Get is kept with a private copy and re-compared after every later operation for 50 steps and at the end. Non-trivial: case with >=1 batch that re-puts a staged key, >=20 retained slices and >=1 restart; distinct = hash of (config, op list) Every third compared Get is followed by a second Get whose RESULT the harness overwrites with garbage and a third Get that must still return the stored value (and the first result must be unchanged); values handed to the Fold callback are overwritten by the callback. Values whose length is a power of two or a multiple of 4096 (and every ninth value) are passed as freshly allocated slices with len == cap, poisoned after the call and watched for the rest of the case."
 }
 func (c15) Assumptions() []string {
 	return []string{"a buffer the harness had to re-allocate (key or value longer than its capacity) is no longer watched", "thorough tier runs under -race, i.e. with checkptr instrumentation"}
 }
 func (c15) Required() []string {
-	return []string{"canary_checks", "retained_slice_checks", "retained_slices", "gets_after_scribbling_a_returned_slice", "batch_reputs", "compared_calls", "restarts"}
+	return []string{"canary_checks", "retained_slice_checks", "retained_slices", "gets_after_scribbling_a_returned_slice", "exact_size_value_slices_watched", "batch_reputs", "compared_calls", "restarts"}
 }
 
 func (c15) Cases(tier string, seed uint64) []core.Case {
@@ -52,7 +52,7 @@ func (c15) Run(c core.Case, w *core.Worker) core.Result {
 	s.ReuseBuf, s.Canary = true, true
 	r := core.NewRng(c.Seed)
 	keys := core.GenKeys(r, sc.NKeys)
-	g := &core.Gen{R: r, Keys: keys, Cfg: sc.Cfg, EndOff: io.ActiveEnd, MaxVal: 40 << 10}
+	g := &core.Gen{R: r, Keys: keys, Cfg: sc.Cfg, EndOff: io.ActiveEnd, MaxVal: 140 << 10}
 	if !s.Open() {
 		return res
 	}
